@@ -180,6 +180,8 @@ def call_args(c, m, thr=0.0):
         df["extra"] = 1.0  # every reference column plus one more: the columns differ from the reference's
         return "label", df, None
     if c == "L2":
+        if j % 2 == 1:
+            return "label", row(a, y=1, b=b).iloc[0:0], None  # no labelled row at all (an empty slice with the right columns)
         return "label", pd.concat([row(a, y=1, b=b), row(a, y=1, b=b + 0.5)], ignore_index=True), None  # two labelled rows at once
     raise ValueError(c)
 
